@@ -12,6 +12,7 @@ import (
 	"github.com/mmcloughlin/addchain/acc/ir"
 	"github.com/mmcloughlin/addchain/acc/pass"
 	"github.com/mmcloughlin/addchain/acc/printer"
+	"github.com/mmcloughlin/addchain/alg"
 	"github.com/mmcloughlin/addchain/alg/ensemble"
 	"github.com/mmcloughlin/addchain/alg/exec"
 )
@@ -589,6 +590,30 @@ func genC04(g *Gen, emit func(g *Gen, p addchain.Program), maxLen, sample7 int) 
 		}
 		emit(g, res.Program)
 		g.Count("search")
+	}
+
+	// very long programs: scripts of several hundred lines (a parser with a work limit, a quadratic
+	// pass or a recursion bound shows up only here)
+	for _, bits := range []int{2048, 3072, 4100, 6000}[:g.pick(3, 4)] {
+		n := g.R.Bits(bits)
+		n.SetBit(n, bits-1, 1)
+		n.SetBit(n, 0, 1)
+		var a alg.ChainAlgorithm
+		for _, cand := range as {
+			if strings.Contains(cand.String(), "sliding_window(4)") && strings.Contains(cand.String(), "dichotomic") && !strings.HasPrefix(cand.String(), "opt(") {
+				a = cand
+			}
+		}
+		if a == nil {
+			a = as[0]
+		}
+		var res exec.Result
+		if msg := safe(func() { res = exec.Execute(n, a) }); msg != "" || res.Err != nil {
+			g.Count("search-failed")
+			continue
+		}
+		emit(g, res.Program)
+		g.Count("search-very-long")
 	}
 
 	// programs in the style of the runs algorithms (names x<n>)
